@@ -14,7 +14,9 @@
  *  8 a module is replaced by name (ALLOW_REPLACE) while it has traffic and the user still holds the old handle
  *  9 a burst larger than the recipient's pipe
  * 10 the last module of a non-persistent context deregisters itself inside a callback while the loop runs
- * 11 a task source whose module is stopped before the task has finished */
+ * 11 a task source whose module is stopped before the task has finished
+ * 12 a stashed event is replayed (m_mod_unstash from outside the loop) to a handler that deregisters its own module
+ * 13 a PAUSED module with messages still in its mailbox is stopped (V0) / deregistered (V1) / goes with the context (V2) */
 #include "vf.h"
 #include "vf_os.h"
 #include <module/mod.h>
@@ -49,6 +51,11 @@ static void my_action(int who, int kind, m_mod_t *m, const m_queue_t *q) {
     });
 #elif SCEN == 7
     if (kind == VF_CB_EVT && who == 1) m_itr_foreach(q, { m_evt_t *e = m_itr_get(m_itr); if (e->type == M_SRC_TYPE_PS && !e->ps_evt->system) { int r = m_mod_stash(m, e); VF_CHECK(r == 0, "stash"); } });
+#elif SCEN == 12
+    if (kind == VF_CB_EVT && who == 1) {
+        if (vf_ncalls[1] == 1) { m_itr_foreach(q, { m_evt_t *e = m_itr_get(m_itr); if (e->type == M_SRC_TYPE_PS && !e->ps_evt->system) { int r = m_mod_stash(m, e); VF_CHECK(r == 0, "stash"); } }); }
+        else if (!acted) { acted = 1; int r = m_mod_deregister(&vf_mods[1]); VF_CHECK(r == 0 && vf_mods[1] == NULL, "self-deregistration while a stashed event is replayed"); }
+    }
 #elif SCEN == 10
     if (kind == VF_CB_EVT && who == 0 && !acted) { acted = 1; int r = m_mod_deregister(&vf_mods[0]); VF_CHECK(r == 0, "last module deregisters itself inside the handler"); }
 #endif
@@ -158,6 +165,29 @@ int vf_main(void) {
     VF_CHECK(vf_mods[0] == NULL, "deregistered inside the handler");
     r = m_ctx_dispatch();      /* nobody is running any more: the loop stops and the context goes with its last module */
     VF_CHECK(m_ctx_len() == -EPIPE, "non-persistent context released when the loop returned");
+#elif SCEN == 12
+    m_mod_t *B = vf_mod(1, 0, NULL); r = m_mod_start(B); VF_CHECK(r == 0, "start B");
+    r = m_ctx_dispatch();
+    p1 = payload();
+    r = m_mod_ps_tell(A, B, p1, pf); VF_CHECK(r == 0, "tell"); r = m_ctx_dispatch();
+    VF_CHECK(vf_ncalls[1] == 1, "delivered once and stashed");
+    unsigned char c12 = nondet_uchar();
+    r = m_ctx_quit(c12); r = m_ctx_dispatch();          /* the loop has returned: the replay happens outside any dispatch */
+    { ssize_t n = m_mod_unstash(B, 1); VF_CHECK(n == 1, "one stashed event replayed"); }
+    VF_CHECK(vf_ncalls[1] == 2 && vf_mods[1] == NULL, "the replay handler deregistered its own module");
+#elif SCEN == 13
+    m_mod_t *B = vf_mod(1, 0, NULL); r = m_mod_start(B); VF_CHECK(r == 0, "start B");
+    r = m_ctx_dispatch();
+    r = m_mod_pause(B); VF_CHECK(r == 0, "pause B");
+    p1 = payload(); p2 = payload();
+    r = m_mod_ps_tell(A, B, p1, pf); VF_CHECK(r == 0, "tell a paused module");
+    r = m_mod_ps_tell(A, B, p2, pf); VF_CHECK(r == 0, "tell a paused module (2)");
+#if V == 0
+    r = m_mod_stop(B); VF_CHECK(r == 0, "stop the paused module with messages pending");
+#elif V == 1
+    r = m_mod_deregister(&vf_mods[1]); VF_CHECK(r == 0, "deregister the paused module with messages pending");
+#endif
+    VF_CHECK(vf_ncalls[1] == 0, "nothing was delivered to the paused module");
 #elif SCEN == 11
     m_mod_t *B = vf_mod(1, 0, NULL); r = m_mod_start(B); VF_CHECK(r == 0, "start B");
     r = m_ctx_dispatch();
@@ -176,9 +206,9 @@ int vf_main(void) {
 
     /* teardown: every module goes, the non-persistent context follows; then the user drops what he retained */
     unsigned char code = nondet_uchar();
-    if (m_ctx_len() >= 0 && M_CTX_LOOPING == 1) { /* the loop may still be running: end it */
+    { m_ctx_t *cc = m_ctx(); if (cc && cc->state == M_CTX_LOOPING) { /* the loop is still running: end it */
         m_ctx_quit(code); m_ctx_dispatch();
-    }
+    } }
     drop_module(1); drop_module(0);
     VF_CHECK(m_ctx_len() == -EPIPE, "context released with its last module");
     for (int i = 0; i < 2; i++) if (kept[i]) m_mem_unref(kept[i]);
